@@ -234,6 +234,19 @@ class StmtMixin:
         if isinstance(base, VRefMap):
             base.arr = z3.Store(base.arr, self.z(idx), self.z(v))
             return
+        if type(base).__name__ == "VOptRefMap":
+            k = self.z(idx)
+            from .theory import NONE_REF
+            if v is None:
+                none, val = z3.BoolVal(True), NONE_REF
+            elif isinstance(v, VOpt):
+                none, val = v.is_none, self.z(v.val)
+            else:
+                none, val = z3.BoolVal(False), self.z(v)
+            base.present = z3.Store(base.present, k, z3.BoolVal(True))
+            base.isnone = z3.Store(base.isnone, k, none)
+            base.val = z3.Store(base.val, k, val)
+            return
         if isinstance(base, Sym) and base.k == "ref":
             return self.unit.ref_setitem(self, base, idx, v)
         raise GenError("subscript store on %r" % (base,))
